@@ -2,6 +2,7 @@ mod drive_ctx;
 mod drive_data;
 mod drive_eval;
 mod drive_ops;
+mod drive_parse;
 mod drive_refs;
 mod drive_share;
 mod enc;
@@ -123,6 +124,28 @@ fn main() {
             let k = drive_share::threads(seed, n, threads, per, &mut out);
             out.flush().unwrap();
             eprintln!("share-threads executions={}", k);
+        }
+        "parse-vectors" => {
+            let inp = arg(&args, "--in").expect("--in");
+            let mut out = std::io::BufWriter::new(std::fs::File::create(&out_path).expect("open out"));
+            let k = drive_parse::parse_vectors(inp, &mut out);
+            out.flush().unwrap();
+            eprintln!("parse-vectors vectors={}", k);
+        }
+        "sentence-vectors" => {
+            let inp = arg(&args, "--in").expect("--in");
+            let mut out = std::io::BufWriter::new(std::fs::File::create(&out_path).expect("open out"));
+            let k = drive_parse::sentence_vectors(inp, &mut out);
+            out.flush().unwrap();
+            eprintln!("sentence-vectors vectors={}", k);
+        }
+        "drive-parse" => {
+            let fam = arg(&args, "--family").unwrap_or("c04");
+            let thorough = arg(&args, "--tier") == Some("thorough");
+            let mut out = std::io::BufWriter::new(std::fs::File::create(&out_path).expect("open out"));
+            let k = if fam == "c01" { drive_parse::drive_c01(seed, thorough, &mut out) } else { drive_parse::drive_c04(seed, thorough, &mut out) };
+            out.flush().unwrap();
+            eprintln!("drive-parse family={} records={}", fam, k);
         }
         "run-vectors" => {
             // spec -> implementation: run every TLC-generated source text against the model's context
